@@ -53,7 +53,7 @@ macro "tl_auto2" : tactic =>
 
 theorem minv_arc {σ : St} (t : Nat) (M : MInv σ) : MInv (step σ (.arc t)) := by
   by_cases hr : ∃ r, (σ.th t).pc = .arc r
-  swap
+  rotate_left
   · have : step σ (.arc t) = σ := by
       simp only [step]; split
       · rename_i r h; exact absurd ⟨r, h⟩ hr
@@ -86,7 +86,7 @@ theorem minv_arc {σ : St} (t : Nat) (M : MInv σ) : MInv (step σ (.arc t)) := 
 
 theorem minv_wake {σ : St} (t : Nat) (M : MInv σ) : MInv (step σ (.wake t)) := by
   by_cases hr : ∃ j seq, (σ.th t).pc = .wblk j seq ∧ ¬ (σ.cvWaiters.contains t || σ.wlockOwner.isSome) = true
-  swap
+  rotate_left
   · have : step σ (.wake t) = σ := by
       simp only [step]; split
       · rename_i j seq h
@@ -96,7 +96,7 @@ theorem minv_wake {σ : St} (t : Nat) (M : MInv σ) : MInv (step σ (.wake t)) :
       · rfl
     rw [this]; exact M
   obtain ⟨j, seq, hpc, hc⟩ := hr
-  have e : step σ (.wake t) = σ.goto t (.c1 j seq .after) := by simp only [step, hpc, hc, if_false]
+  have e : step σ (.wake t) = σ.goto t (.c1 j seq .after) := by simp only [step, hpc]; rw [if_neg hc]
   rw [e]
   obtain ⟨l1, l2, l3, l4, l5, l6, l7, l8, l9, l10, l11, l12, l13, l14, l15, l16, l17, l18, l19, l20, l21, l22⟩ := M.thr t
   rw [hpc] at l1 l2 l3 l4 l5 l6 l7 l8 l9 l10 l11 l12 l13 l14 l15 l16 l17 l18 l19 l20 l21 l22
@@ -123,7 +123,7 @@ theorem not_creating_idle {y : Th} (h : y.pc = .idle) : ¬ y.creating := by
 handle yields a view handle -/
 theorem minv_retn {σ : St} (t : Nat) (M : MInv σ) : MInv (step σ (.retn t)) := by
   by_cases hr : ∃ r, (σ.th t).pc = .ret r
-  swap
+  rotate_left
   · have : step σ (.retn t) = σ := by
       simp only [step]; split
       · rename_i r h; exact absurd ⟨r, h⟩ hr
@@ -152,31 +152,20 @@ theorem minv_retn {σ : St} (t : Nat) (M : MInv σ) : MInv (step σ (.retn t)) :
     intro ho; have := hnew ho; subst this; exact Or.inr (Or.inr (Or.inr ⟨by rw [hpc]; rfl, ho⟩))
   have hngne : ((σ.th t).outer = .clone ∨ (σ.th t).outer = .addStream) → (σ.th t).ng ≠ (σ.th t).g := by
     intro ho e; have := (haft ho).2.2.1; rw [e, hbusy] at this; cases this
-  have e_sl : (step σ (.retn t)).sl = σ.sl := by
+  have hform : ∃ f, step σ (.retn t) = { ((σ.goto t .idle).flush t) with hs := f } := by
     simp only [step, hpc]; repeat' split
-    all_goals rfl
-  have e_cl : (step σ (.retn t)).cl = σ.cl := by
-    simp only [step, hpc]; repeat' split
-    all_goals rfl
-  have e_wr : (step σ (.retn t)).writers = σ.writers := by
-    simp only [step, hpc]; repeat' split
-    all_goals rfl
-  have e_nc : (step σ (.retn t)).ncons = σ.ncons := by
-    simp only [step, hpc]; repeat' split
-    all_goals rfl
-  have e_ring : (step σ (.retn t)).ring = σ.ring := by
-    simp only [step, hpc]; repeat' split
-    all_goals rfl
-  have e_est : (step σ (.retn t)).est = σ.est := by
-    simp only [step, hpc]; repeat' split
-    all_goals rfl
-  have e_pc : ((step σ (.retn t)).th t).pc = .idle := by
-    simp only [step, hpc]; repeat' split
-    all_goals simp [St.setHd, St.goto, St.flush, St.setTh, upd]
+    all_goals exact ⟨_, rfl⟩
+  obtain ⟨f, hf⟩ := hform
+  have e_sl : (step σ (.retn t)).sl = σ.sl := by rw [hf]; rfl
+  have e_cl : (step σ (.retn t)).cl = σ.cl := by rw [hf]; rfl
+  have e_wr : (step σ (.retn t)).writers = σ.writers := by rw [hf]; rfl
+  have e_nc : (step σ (.retn t)).ncons = σ.ncons := by rw [hf]; rfl
+  have e_ring : (step σ (.retn t)).ring = σ.ring := by rw [hf]; rfl
+  have e_est : (step σ (.retn t)).est = σ.est := by rw [hf]; rfl
+  have e_pc : ((step σ (.retn t)).th t).pc = .idle := by rw [hf]; simp [St.goto, St.flush, St.setTh, upd]
   have e_th : ∀ u, u ≠ t → (step σ (.retn t)).th u = σ.th u := by
-    intro u hu
-    simp only [step, hpc]; repeat' split
-    all_goals simp [St.setHd, St.goto, St.flush, St.setTh, upd, hu]
+    intro u hu; rw [hf]; simp [St.goto, St.flush, St.setTh, upd, hu]
+  clear hf f
   have hsame : ∀ a,
       ((step σ (.retn t)).hs a).sender = (σ.hs a).sender ∧ ((step σ (.retn t)).hs a).used = (σ.hs a).used ∧
       ((step σ (.retn t)).hs a).stream = (σ.hs a).stream ∧ ((step σ (.retn t)).hs a).uni = (σ.hs a).uni ∧
